@@ -110,6 +110,56 @@ def ensure_fi():
         lk.close()
 
 
+# ------------------------------------------------------------------ unbounded proofs (Apalache induction, TLAPS)
+def apalache_inductive(module, inv="IndInv", cinit="ConstInit", cinit_neg=None, safety=None, timeout=900):
+    """Discharges `inv` as an inductive invariant of spec/<module>.tla with Apalache (base case at length 0, step at length 1),
+    optionally `inv => safety`, and requires the NEGATIVE constant initialiser to be rejected (non-vacuity)."""
+    d = os.path.join(WORK, "ind_%s_%d" % (module, os.getpid()))
+    shutil.rmtree(d, ignore_errors=True)
+    os.makedirs(d)
+    shutil.copy(os.path.join(SPEC, module + ".tla"), d)
+    res = {"module": module, "tool": "apalache-mc", "obligations": []}
+
+    def one(name, args, expect_ok=True):
+        t = time.time()
+        rc, out = run(["apalache-mc", "check"] + args + [module + ".tla"], cwd=d, timeout=timeout, check=False, env={"JAVA_TOOL_OPTIONS": ""})
+        ok = "The outcome is: NoError" in out
+        err = "The outcome is: Error" in out
+        if not ok and not err:
+            raise ToolError("apalache-mc %s %s: no outcome\n%s" % (module, name, out[-3000:]))
+        res["obligations"].append({"name": name, "outcome": "NoError" if ok else "Error", "expected": "NoError" if expect_ok else "Error", "wall_s": round(time.time() - t, 1)})
+        return ok == expect_ok
+    try:
+        good = one("Init => %s" % inv, ["--cinit=" + cinit, "--init=Init", "--inv=" + inv, "--length=0"])
+        good &= one("%s /\\ Next => %s'" % (inv, inv), ["--cinit=" + cinit, "--init=" + inv, "--inv=" + inv, "--length=1"])
+        if safety:
+            good &= one("%s => %s" % (inv, safety), ["--cinit=" + cinit, "--init=" + inv, "--inv=" + safety, "--length=0"])
+        if cinit_neg:
+            good &= one("negative variant: %s is not inductive" % inv, ["--cinit=" + cinit_neg, "--init=" + inv, "--inv=" + inv, "--length=1"], expect_ok=False)
+    finally:
+        shutil.rmtree(d, ignore_errors=True)
+    res["ok"] = bool(good)
+    return res
+
+
+def tlaps_prove(module, deps, timeout=900):
+    """Runs tlapm on spec/<module>.tla (with the modules it extends) from a scratch directory without a fingerprint cache."""
+    d = os.path.join(WORK, "tlaps_%s_%d" % (module, os.getpid()))
+    shutil.rmtree(d, ignore_errors=True)
+    os.makedirs(d)
+    shutil.copy(os.path.join(SPEC, "proofs", module + ".tla"), d)   # proof modules live in spec/proofs (they extend TLAPS, which SANY / TLC do not have)
+    for m in deps:
+        shutil.copy(os.path.join(SPEC, m + ".tla"), d)
+    t = time.time()
+    try:
+        rc, out = run(["tlapm", "--threads", "8", module + ".tla"], cwd=d, timeout=timeout, check=False)
+    finally:
+        shutil.rmtree(d, ignore_errors=True)
+    m = re.search(r"All (\d+) obligations? proved", out)
+    return {"module": module, "tool": "tlapm", "ok": bool(m) and rc == 0, "obligations_proved": int(m.group(1)) if m else 0,
+            "wall_s": round(time.time() - t, 1), "tail": "" if m else out[-1500:]}
+
+
 # ------------------------------------------------------------------ TLC
 def _tlc_env(extra=None, trace=False):
     e = {}
